@@ -2177,7 +2177,8 @@ impl JoinReorder {
             if let Some(row_count) = self.get_relation_row_count(rel) {
                 // Smaller tables get higher scores (better build sides)
                 // Scale: 25 rows -> ~8000, 150K rows -> ~3000, 6M rows -> ~800, 600M -> -3200
-                let score = 10000 - (row_count as f64).log2() as i32 * 500;
+                // an empty table scores like a one-row table (log2(0) is -inf)
+                let score = 10000 - (row_count.max(1) as f64).log2() as i32 * 500;
                 let score = if self.relation_has_filter(&rel.plan) {
                     score + 1500
                 } else {
